@@ -97,7 +97,7 @@ def rerun(a):
         if meta.get('superseded'):
             print(i, '(superseded, skipped)')
             continue
-        props = sorted(set([meta['property']] + list(meta.get('checks', {}).keys())))
+        props = sorted(set([meta['property']] + list(meta.get('checks', {}).keys()) + list(a.also or [])))
         print(i)
         meta['checks'] = evaluate(os.path.join(base, i, 'patch.diff'), props, a.tier, a.seed)
         json.dump(meta, open(mp, 'w'), indent=1)
@@ -113,6 +113,7 @@ def main():
     p1.add_argument('--needs', default=None)
     p2 = sub.add_parser('rerun')
     p2.add_argument('ids', nargs='*'); p2.add_argument('--tier', default='quick'); p2.add_argument('--seed', default=None)
+    p2.add_argument('--also', nargs='*')
     a = ap.parse_args()
     return add(a) if a.mode == 'add' else rerun(a)
 
